@@ -49,9 +49,11 @@ TriQuick == {Zero, One, Neg(One), Two, FromInt(7), FromInt(-7), D(<<"1","0","0",
              Add(Sqrt63, One), MaxInt64, MinInt64}
 TriThorough == TriQuick \cup {FromInt(3), FromInt(-2), Pow2(32), Sub(Pow2(32), One), Pow2(62), Sub(MaxInt64, One), Neg(MaxInt64)}
 Tri == IF Tier = "quick" THEN TriQuick ELSE TriThorough
+\* bases for mexp with every small exponent
+MexpBases == {Two, FromInt(7), FromInt(-7), Add(Sqrt63, One), MaxInt64} \cup (IF Tier = "quick" THEN {} ELSE {MinInt64, FromInt(3), Pow2(32)})
 
 Digits(S) == SetToSeq({ToDigits(v) : v \in S})
-Emit == PrintT(ToJson([grid |-> Digits(Grid), small |-> Digits(SmallSeconds), tri |-> Digits(Tri),
+Emit == PrintT(ToJson([grid |-> Digits(Grid), small |-> Digits(SmallSeconds), tri |-> Digits(Tri), mexpbases |-> Digits(MexpBases),
                         unary |-> SetToSeq(UnaryOps), binary |-> SetToSeq(BinaryOps), ternary |-> SetToSeq(TernaryOps),
                         smallsecond |-> SetToSeq(SmallSecond),
                         min64 |-> ToDigits(MinInt64), max64 |-> ToDigits(MaxInt64)]))
